@@ -501,3 +501,76 @@ def check_C17(tier):
                             "process' first answer" % (T(tier, 3, 4), nproc - 1)},
                    time.time() - t0, len(viols), assumptions=["FNV-1a 64 hashes stand for contents", "label renaming = first-appearance order of defined labels"])
     return 1 if new else 0
+
+
+# ---------------------------------------------------------------------------------------------- C12
+def capacity_boundary_programs():
+    out = []
+    for n in range(0, 9):   # main with 0..8 parameters (limits: 5 on x86-64, 7 on AArch64)
+        ps = ", ".join("a%d: i64" % i for i in range(n))
+        body = " + ".join(["0"] + ["a%d" % i for i in range(n)]) if n < 2 else "(" * (n - 1) + "a0" + "".join(" + a%d)" % i for i in range(1, n))
+        out.append(("cap_main%d" % n, "def main(%s): i64 { %s }\n" % (ps, body), [list(range(n))]))
+    for k in (5, 6, 7, 12, 13, 14, 15, 16, 20):   # k simultaneously live variables (register files: 6 / 13 / 14)
+        lets = "".join("let v%d: i64 = %d; " % (i, i + 1) for i in range(k))
+        s = "v0"
+        for i in range(1, k):
+            s = "(%s + v%d)" % (s, i)
+        out.append(("cap_live%d" % k, "def main(): i64 { %s%s }\n" % (lets, s), [[]]))
+        out.append(("cap_live%d_print" % k, "def main(): i64 { %sprintln_i64(v0); %s }\n" % (lets, s), [[]]))
+    return out
+
+
+def check_C12(tier):
+    import time, collections
+    t0 = time.time()
+    build_harness()
+    work = fresh_dir(WORK, "C12")
+    k = T(tier, 1, 12)
+    plan = [dict(n=160 * k, mode="any", pressure=False, budget=(8, 34), wide=True, max_main_params=5, tag="any"),
+            dict(n=60 * k, mode="any", pressure=True, twins=True, budget=(8, 24), tag="press")]
+    art, index, args, meta = stages.build(work, plan, axcut_plan=None, emit="fun,core,coreuniq,corefs,axcut,axcutlin,x86,a64,rv64")
+    # capacity-boundary programs go through the same pipeline
+    cb = capacity_boundary_programs()
+    lp = os.path.join(work, "cap.json")
+    json.dump([{"name": n, "kind": "fun", "src": s} for n, s, a in cb], open(lp, "w"))
+    sccv("pipeline", lp, os.path.join(work, "capart"), "axcutlin,x86,a64,rv64")
+    capindex = {c["name"]: c for c in json.load(open(os.path.join(work, "capart", "index.json")))}
+    traces = stages.stage_traces(art, index) + stages.stage_traces(os.path.join(work, "capart"), capindex)
+    r = stages.run_stage_traces(work, traces)
+    viols, stats = [], collections.Counter()
+    states, trans = r["distinct"], r["states"]
+    accepted_prog = {n for n, e in index.items() if any(s["stage"] == "check" and s["outcome"] == "ok" for s in e["stages"])}
+    for x in r["results"]:
+        stats["trace:" + x["status"]] += 1
+        if x["status"] == "tool":
+            raise ToolError(x["why"])
+        if x["status"] == "rejected" and (x["case"] in accepted_prog or x["case"].startswith("cap_")):
+            rp = save_replay("C12", "trace-" + x["case"], {"program": x["case"], "why": x["why"], "source": meta.get(x["case"], {}).get("src"),
+                                                          "stages": (index.get(x["case"]) or capindex.get(x["case"]))["stages"]})
+            viols.append({"signature": "C12:internal-failure:%s" % lockstep.normalize_why(x["why"]), "what": "%s: %s" % (x["case"], x["why"][:200]), "replay": rp})
+    for stg in ("core", "coreuniq", "corefs", "axcut", "axcutlin"):
+        names = [n for n in index if stages.stage_ok(index[n], stg)]
+        bad, rr = stages.run_walker(art, work, names, stg)
+        states += rr["distinct"]; trans += rr["states"]
+        stats["walked:" + stg] = len(names)
+        for n, ws in bad.items():
+            if not ws:
+                continue
+            stats["ill-typed:" + stg] += 1
+            tw = meta.get(n, {}).get("twin")
+            cap = tw and not bad.get(tw)
+            plain_capture = meta.get(n, {}).get("origin") == "any" and stg != "axcutlin"
+            sig = "C12:capture:typing" if cap else "C12:typing:%s:%s" % (stg, lockstep.normalize_why(ws[0]))
+            rp = save_replay("C12", "typing-%s-%s" % (stg, n), {"program": n, "stage": stg, "reasons": ws, "source": meta.get(n, {}).get("src")})
+            viols.append({"signature": sig, "what": "%s: %s output is ill-typed: %s" % (n, stg, ws[0]), "replay": rp})
+    log("[C12] %s" % dict(stats))
+    new = triage("C12", viols)
+    write_evidence("C12", tier, "model_checking",
+                   {"states": states, "transitions": trans, "traces_validated_against_impl": len(traces) + sum(v for kk, v in stats.items() if kk.startswith("walked:")),
+                    "samples": [{"trace": t["name"], "events": [(e["stage"], e["class"]) for e in t["events"]], "facts": t["facts"]} for t in traces[-3:]],
+                    "outcomes": dict(stats),
+                    "rule": "stage-event traces of generated and capacity-boundary programs validated by spec/TracePipeline.tla (a panic is in "
+                            "no alphabet; capacity only beyond the documented limits); every intermediate program of every accepted program "
+                            "walked on all paths by spec/CoreTyping.tla / spec/AxCutTyping.tla"},
+                   time.time() - t0, len(viols))
+    return 1 if new else 0
